@@ -350,9 +350,8 @@ pub fn cmd_one(args: &[String]) -> u8 {
 
 fn spawn_workers(property: &str, tier: &str, seed: u64, runs: u64, cap_s: u64, workers: u64) -> Result<Vec<WorkerResult>, String> {
     let exe = std::env::current_exe().map_err(|e| e.to_string())?;
-    let mut children = vec![];
-    for k in 0..workers {
-        let c = std::process::Command::new(&exe)
+    let spawn = |k: u64| -> Result<std::process::Child, String> {
+        std::process::Command::new(&exe)
             .args([
                 "worker",
                 property,
@@ -366,19 +365,33 @@ fn spawn_workers(property: &str, tier: &str, seed: u64, runs: u64, cap_s: u64, w
             .stdout(std::process::Stdio::piped())
             .stderr(std::process::Stdio::inherit())
             .spawn()
-            .map_err(|e| e.to_string())?;
-        children.push(c);
-    }
-    let mut results = vec![];
-    for c in children {
+            .map_err(|e| e.to_string())
+    };
+    let collect = |c: std::process::Child| -> Result<WorkerResult, String> {
         let o = c.wait_with_output().map_err(|e| e.to_string())?;
         let text = String::from_utf8_lossy(&o.stdout);
         let line = text
             .lines()
             .find(|l| l.starts_with("WORKER-RESULT "))
             .ok_or_else(|| format!("worker produced no result (status {:?}): {}", o.status, text.chars().take(500).collect::<String>()))?;
-        let r: WorkerResult = serde_json::from_str(&line["WORKER-RESULT ".len()..]).map_err(|e| e.to_string())?;
-        results.push(r);
+        serde_json::from_str(&line["WORKER-RESULT ".len()..]).map_err(|e| e.to_string())
+    };
+    let mut children = vec![];
+    for k in 0..workers {
+        children.push((k, spawn(k)?));
+    }
+    let mut results = vec![];
+    for (k, c) in children {
+        match collect(c) {
+            Ok(r) => results.push(r),
+            Err(e) => {
+                // a worker that was killed from outside (memory pressure on a busy machine) says
+                // nothing about the property: its share of the seeds is a function of its index, so
+                // it is simply run again, once
+                eprintln!("wbsim: worker {k} failed ({e}); running its share again");
+                results.push(collect(spawn(k)?)?);
+            }
+        }
     }
     Ok(results)
 }
